@@ -230,10 +230,28 @@ Definition ip_from_text (h : str) (m p : option str) : res (list N * ipinfo) :=
       Ok (a4 ++ be2 (Z.to_N (Z.land port 65535)),
           mkIp ipz mask (Some host) (Some subnet) port h (inet_ntoa (be4 (Z.to_N bcast)))).
 
+(* ------------------------------------------------------------------ __eq__ (pdu.py:483-497) *)
+Definition aty_eqb (a b : aty) : bool := (aty_code a =? aty_code b)%Z.
+Definition opt_eqb {A} (e : A -> A -> bool) (a b : option A) : bool :=
+  match a, b with
+  | None, None => true
+  | Some x, Some y => e x y
+  | _, _ => false
+  end.
+Definition mac_eqb := opt_eqb (list_eqb N.eqb).
+
+Definition eqb (a b : addr) : bool :=
+  aty_eqb (ty a) (ty b) && opt_eqb Z.eqb (net a) (net b) && mac_eqb (mac a) (mac b)
+  && match route a, route b with
+     | Some r1, Some r2 => list_eqb N.eqb r1 r2
+     | _, _ => true
+     end.
+
 Inductive host := HStr (s : str) | HInt (z : Z).
-(* constructor arguments: int, bytes/bytearray, str, (host, port) tuple, anything else *)
+(* constructor arguments: int, bytes/bytearray, str, (host, port) tuple, another Address object,
+   anything else *)
 Inductive arg := AInt (z : Z) | ABytes (l : list N) | AStr (s : str) | ATuple (h : host) (port : Z)
-               | AOther.
+               | AAddr (a : addr) | AOther.
 
 (* pdu.py:366-395 (tuple) *)
 Definition ip_from_tuple (h : host) (port : Z) : res (list N * ipinfo) :=
@@ -305,10 +323,24 @@ Definition decode_str (s : str) : res addr :=
              end
     end.
 
-(* decode_address: pdu.py:88-398 *)
+(* decode_address: pdu.py:88-398.
+   The two wildcard tests `addr == "*"` / `addr == "*:*"` (pdu.py:99-107) come BEFORE the dispatch on
+   the argument's type and use Python's ==, so every argument type reaches them:
+   - str: equal only to the very same text (the tests are at the head of decode_str);
+   - int, bytes, bytearray, tuple, float, None, list: never equal to a str (b"*" == "*" is False in
+     Python 3), so e.g. the octets 0x2A and 0x2A 0x3A 0x2A are stations, not broadcasts;
+   - an Address object: Address.__eq__ coerces the text ("*" -> local broadcast, "*:*" -> global
+     broadcast) and compares type, network and octets (a route on one side only is ignored) — a
+     broadcast OBJECT is therefore accepted and copied WITHOUT its route; every other Address object
+     falls through the isinstance chain to TypeError. *)
+Definition bcast_local : addr := mkAddr ALocalBroadcast None None None None.
+Definition bcast_global : addr := mkAddr AGlobalBroadcast None None None None.
 Definition decode_address (a : arg) : res addr :=
   match a with
   | AStr s => decode_str s
+  | AAddr x => if eqb x bcast_local then Ok bcast_local
+               else if eqb x bcast_global then Ok bcast_global
+               else Err TypeErr
   | AInt z => if (z <? 0)%Z || (256 <=? z)%Z then Err ValueErr else Ok (station [Z.to_N z])
   | ABytes l =>
       Ok (mkAddr ALocalStation None (Some l) None
@@ -391,23 +423,7 @@ Definition print (a : addr) : res str :=
   | Some r => do rs <- print_mac (Some r); Ok (body ++ 64 :: rs)
   end.
 
-(* ------------------------------------------------------------------ __eq__, _tuple *)
-Definition aty_eqb (a b : aty) : bool := (aty_code a =? aty_code b)%Z.
-Definition opt_eqb {A} (e : A -> A -> bool) (a b : option A) : bool :=
-  match a, b with
-  | None, None => true
-  | Some x, Some y => e x y
-  | _, _ => false
-  end.
-Definition mac_eqb := opt_eqb (list_eqb N.eqb).
-
-Definition eqb (a b : addr) : bool :=
-  aty_eqb (ty a) (ty b) && opt_eqb Z.eqb (net a) (net b) && mac_eqb (mac a) (mac b)
-  && match route a, route b with
-     | Some r1, Some r2 => list_eqb N.eqb r1 r2
-     | _, _ => true
-     end.
-
+(* ------------------------------------------------------------------ _tuple (for __eq__ see above decode_address) *)
 (* _tuple(): (addrType, addrNet, addrAddr, route tuple or None); hash(a) = hash(_tuple()) *)
 Definition tuple (route_aware : bool) (a : addr) : aty * option Z * option (list N) * option (list N) :=
   (ty a, net a, mac a, if route_aware then route a else None).
@@ -449,7 +465,9 @@ Definition reparse (r : res addr) : res addr :=
   do a <- r; do s <- print a; decode_str s.
 (* a == x for a non-Address x: x is first coerced by Address(x) (pdu.py:462-464) *)
 Definition eq_coerce (ra : res addr) (x : arg) : res bool :=
-  do a <- ra; do b <- address1 x; Ok (eqb a b).
+  do a <- ra; do b <- match x with AAddr b => Ok b | _ => address1 x end; Ok (eqb a b).
+(* an Address object as constructor argument (the harness only passes objects that were built) *)
+Definition arg_of (r : res addr) : arg := match r with Ok a => AAddr a | Err _ => AOther end.
 Definition canon_bool_r (r : res bool) : list Z := canon_r (fun b => [zb b]) r.
 Definition canon_pack (r : res (list N)) : list Z := canon_r canon_str r.
 Definition canon_unpack (p : str * N) : list Z := canon_str (fst p) ++ [zN (snd p)].
@@ -461,3 +479,16 @@ Definition canon_unpack (p : str * N) : list Z := canon_str (fst p) ++ [zN (snd 
    are not reset by the code: they stay from an earlier IP notation when the new one is not an
    IP form; they take no part in str(), ==, _tuple() and are not compared in that case.) *)
 Definition decode_on (history : list arg) (a : arg) : res addr := decode_address a.
+
+(* constructing an address after other addresses were constructed (and possibly modified) in the
+   same process: constructors are functions of their arguments alone — there is no module-level
+   state (no cache of parsed texts, no shared field objects) that earlier constructions could leave
+   behind.  `earlier` is what was built before; the result does not look at it. *)
+Definition built_after (earlier : list (res addr)) (r : res addr) : res addr := r.
+(* the observations of a sequence of constructions in one process, each made when the object is built *)
+Fixpoint canon_seq_from (earlier l : list (res addr)) : list Z :=
+  match l with
+  | [] => []
+  | r :: rest => canon_addr_r (built_after earlier r) ++ canon_seq_from (earlier ++ [r]) rest
+  end.
+Definition canon_seq (l : list (res addr)) : list Z := canon_seq_from [] l.
